@@ -304,6 +304,10 @@ func runC19(ctx *runCtx) {
 			rep.violate(Violation{Kind: "property", Shape: r.sh, What: r.w, Replay: cc})
 		}
 	}
+	if sh, w := jsonPoolScenario(4); sh != "" {
+		rep.violate(Violation{Kind: "property", Shape: sh, What: w, Replay: map[string]interface{}{"scenario": "json-pool"}})
+	}
+	rep.eval("scenario/json-pool")
 	askAndCompare(ctx, lines, expect, what, "json-model-vs-impl")
 	rep.sample(cases[0])
 	rep.sample(cases[len(cases)-20])
